@@ -262,6 +262,19 @@ def _has_set(x):
     return False
 
 
+class _Wrap(object):
+    """Application file-like object delegating to whatever it wraps."""
+
+    def __init__(self, f):
+        self.f = f
+
+    def write(self, data):
+        return self.f.write(data)
+
+    def flush(self):
+        self.f.flush()
+
+
 BASE = {"task_uuid": "u-1", "task_level": [2, 1], "timestamp": 1600000000.25, "message_type": "c10"}
 
 
@@ -310,7 +323,7 @@ def run_case(case):
                     viol.append(("partial-write-before-raising", {"calls": repr(f.calls)[:200]}))
             text = None
         return Result(outcome=text, violations=viol[:3])
-    # real files: BytesIO, StringIO, disk files in both modes, through to_file
+    # real files: BytesIO, StringIO, disk files in both modes, same-class files of both modes, through to_file
     viol = []
     msgs = [dict(BASE, v=value(i), n=i) for i in range(0, len(values()), 97)]
     tmp = tempfile.mkdtemp(prefix="vk_c10_", dir="/var/tmp")
@@ -322,6 +335,15 @@ def run_case(case):
 
         fc1 = codecs.open(os.path.join(tmp, "c1.log"), "w", "utf-8")
         fc2 = codecs.getwriter("utf-8")(open(os.path.join(tmp, "c2.log"), "wb"))
+        # files of one and the same class that differ in what they accept: temporary files in
+        # binary and text mode (binary first) and an application wrapper class (text first)
+        ntb = tempfile.NamedTemporaryFile("wb", dir=tmp, delete=False)
+        ntt = tempfile.NamedTemporaryFile("w", encoding="utf-8", dir=tmp, delete=False)
+        wt, wb = _Wrap(io.StringIO()), _Wrap(io.BytesIO())
+        eliot.to_file(ntb)
+        eliot.to_file(ntt)
+        eliot.to_file(wt)
+        eliot.to_file(wb)
         eliot.to_file(bio)
         eliot.to_file(sio)
         eliot.to_file(fb)
@@ -342,7 +364,13 @@ def run_case(case):
         ft.close()
         fc1.close()
         fc2.close()
+        ntb.close()
+        ntt.close()
         contents = {
+            "NamedTemporaryFile(wb)": open(ntb.name, "rb").read().decode("utf-8"),
+            "NamedTemporaryFile(w)": open(ntt.name, "r", encoding="utf-8", newline="").read(),
+            "wrapper(StringIO)": wt.f.getvalue(),
+            "wrapper(BytesIO)": wb.f.getvalue().decode("utf-8"),
             "codecs.open": open(os.path.join(tmp, "c1.log"), "rb").read().decode("utf-8"),
             "codecs.getwriter": open(os.path.join(tmp, "c2.log"), "rb").read().decode("utf-8"),
             "BytesIO": bio.getvalue().decode("utf-8"),
